@@ -118,9 +118,9 @@ func init() {
 		},
 		{
 			ID:          "C08",
-			Rules:       []RuleUse{use("R-RETSHAPE", "v5")},
-			Explanation: "Decided for the v5 body: R-RETSHAPE (every return of the Apply family and of the functions whose result tuples they pass through has a nil document or a nil error; in the operation loop every handler's error is tested before the back edge and the non-nil edge returns (nil, err), so no later operation runs after the first failure).",
-			NotDecided:  "that a patch whose operations all succeed never errors (final marshal).",
+			Rules:       []RuleUse{use("R-RETSHAPE", "v5"), use("R-ERRCHAIN", "v5"), {Rule: "R-COPYLIMIT", Bodies: []string{"v5"}, KeyHas: []string{"(iii)", "(iv)"}}},
+			Explanation: "Decided for the v5 body: R-RETSHAPE (every return of the Apply family and of the functions whose result tuples they pass through has a nil document or a nil error; in the operation loop every handler's error is tested before the back edge and the non-nil edge returns (nil, that error), so no later operation runs after the first failure), R-ERRCHAIN (error identity over every error return of the six handlers and the two containers: ErrTestFailed is produced only by the test handler, by each of its comparison-verdict returns and by none of its lookup-failure returns; a test against an absent member reaches the comparison; an unreachable parent yields ErrMissing in all six handlers; an absent member yields ErrMissing in partialDoc.get/remove and every handler wraps (%w) the container's error or ErrMissing; *AccumulatedCopySizeError comes only from its constructor, called only by the copy handler), R-COPYLIMIT (iii,iv) (that error is returned exactly on the over-limit edge).",
+			NotDecided:  "that a patch whose operations all succeed never errors (the final marshal could fail); the 'exactly when' direction for ErrMissing beyond the 'holds when' clauses the property states.",
 			Trusted:     commonTrusted, Assumptions: commonAssumptions,
 		},
 		{
@@ -128,6 +128,20 @@ func init() {
 			Rules:       []RuleUse{{Rule: "R-GATE", Bodies: []string{"v5", "codec"}, KeyHas: []string{"DecodePatch", "sink "}}, use("R-DISPATCH", "v5"), {Rule: "R-RETSHAPE", Bodies: []string{"v5"}, KeyHas: []string{"DecodePatch"}}, {Rule: "R-NIL", Bodies: []string{"v5"}, KeyHas: []string{"(Operation)"}}},
 			Explanation: "Decided for the v5 body: R-GATE (malformed JSON is rejected before the validity-assuming parse), R-DISPATCH (b) (the accept/reject decision table kind × required member, extracted from validateOperation by partial evaluation per kind, equals RFC 6902 §4 in the library's dialect; unknown kinds are rejected; Operation.value() is nil only when the member is absent), R-DISPATCH (d) (every element is validated and a rejection reaches a (nil, error) return of DecodePatch), R-RETSHAPE (nil patch with every error), R-NIL over the Operation accessors.",
 			NotDecided:  "type errors inside members (a numeric path) are rejected by the codec's unmarshal-into-string, which is trusted; accessor results equal the decoded members (value-level).",
+			Trusted:     commonTrusted, Assumptions: commonAssumptions,
+		},
+		{
+			ID:          "C12",
+			Rules:       []RuleUse{use("R-COPYLIMIT"), {Rule: "R-ERRCHAIN", KeyHas: []string{"ACS-only"}}, {Rule: "R-RETSHAPE", KeyHas: []string{"apply loop"}}},
+			Explanation: "Decided for both library bodies: R-COPYLIMIT (i) the running total is one local of the apply function, allocated before the operation loop and handed only to the copy handler (other operations never count); (ii) the handler adds int64(size) exactly once per copy, size being result 1 of the very deepCopy whose result 0 is inserted, and deepCopy reports len() of the bytes it marshalled — in v5 with the same encoder function and the same options.EscapeHTML as the final output ('as it is spelled in the output'); (iii) the limit test is (limit > 0 && total > limit), both strict, the limit read from the per-call option (v5) / the package variable (legacy); (iv) addition, then test, then insertion, and the over-limit edge returns exactly the constructor's *AccumulatedCopySizeError; (v) NewApplyOptions copies the package defaults. R-ERRCHAIN ACS-only (no other handler can produce the error), R-RETSHAPE (no document is returned with it).",
+			NotDecided:  "that len(marshalled bytes) is numerically the output size for every value (relies on the encoder's determinism, trusted); arithmetic overflow of the int64 total.",
+			Trusted:     commonTrusted, Assumptions: commonAssumptions,
+		},
+		{
+			ID:          "C13",
+			Rules:       []RuleUse{use("R-OPTSCOPE", "v5"), use("R-MOVE", "v5"), {Rule: "R-ERRCHAIN", Bodies: []string{"v5"}, KeyHas: []string{"handler \"remove\"", "(*partialDoc).remove"}}},
+			Explanation: "Decided for the v5 body: R-OPTSCOPE (the option is read only in the remove handler — under the container == nil edge — and in the remove methods of the two containers; every read decides a branch whose option-on edge returns a nil error and whose option-off edge returns a non-nil error, with no membership-changing write before either, so switching it on turns exactly those error returns into no-ops; library code never switches it on; other callers of remove pass options that leave it off), R-MOVE (move's get precedes its remove, so a move from an absent location stays an error), R-ERRCHAIN (the remove handler's and partialDoc.remove's absent-target returns).",
+			NotDecided:  "equality of whole outcomes with the 'patch minus skipped removes' reference (value-level).",
 			Trusted:     commonTrusted, Assumptions: commonAssumptions,
 		},
 		{
@@ -139,8 +153,8 @@ func init() {
 		},
 		{
 			ID:          "C18",
-			Rules:       []RuleUse{use("R-DISPATCH", "legacy"), use("R-REPLACE", "legacy"), use("R-MOVE", "legacy"), use("R-COPYISO", "legacy"), {Rule: "R-NIL", Bodies: []string{"legacy"}, KeyHas: []string{"(Patch)", "(*partial", "findObject", "(*lazyNode)", "deepCopy", "newLazyNode", "(Operation)"}}, use("R-RAW", "legacy"), use("R-STALERAW", "legacy"), use("R-RETSHAPE", "legacy")},
-			Explanation: "Decided on the legacy body (which no baseline test compiles): R-DISPATCH (a) (six kinds reach their handlers, unknown kind is an error), R-REPLACE, R-MOVE, R-COPYISO, R-NIL + R-RAW + R-STALERAW (no nil-node or nil-raw dereference), R-RETSHAPE (no document with an error; first failure ends the loop).",
+			Rules:       []RuleUse{use("R-DISPATCH", "legacy"), use("R-REPLACE", "legacy"), use("R-MOVE", "legacy"), use("R-COPYISO", "legacy"), {Rule: "R-NIL", Bodies: []string{"legacy"}, KeyHas: []string{"(Patch)", "(*partial", "findObject", "(*lazyNode)", "deepCopy", "newLazyNode", "(Operation)"}}, use("R-RAW", "legacy"), use("R-STALERAW", "legacy"), use("R-RETSHAPE", "legacy"), use("R-ERRCHAIN", "legacy")},
+			Explanation: "Decided on the legacy body (which no baseline test compiles): R-DISPATCH (a) (six kinds reach their handlers, unknown kind is an error), R-REPLACE, R-MOVE, R-COPYISO, R-NIL + R-RAW + R-STALERAW (no nil-node or nil-raw dereference), R-RETSHAPE (no document with an error; first failure ends the loop), R-ERRCHAIN (a failed test yields ErrTestFailed and nothing else does; unreachable parents and absent members yield ErrMissing).",
 			NotDecided:  "value-level RFC 6902 equivalence.",
 			Trusted:     commonTrusted, Assumptions: commonAssumptions,
 		},
